@@ -58,12 +58,17 @@ func (fr *Frame) callValue(fv Val, args []Val, p token.Pos, what string, sig *ty
 	return fr.freshResults(sig.Results())
 }
 
-func (fr *Frame) freshResults(res *types.Tuple) []Val {
+func (fr *Frame) freshResults(res *types.Tuple) []Val { return fr.freshResultsSkip(res, nil) }
+
+func (fr *Frame) freshResultsSkip(res *types.Tuple, fresh map[int]bool) []Val {
 	var out []Val
 	for i := 0; i < res.Len(); i++ {
 		t := res.At(i).Type()
 		v := fr.b().Const("res", fr.w().sortOf(t))
 		fr.assume(fr.cx.typeInv(v, t))
+		if !fresh[i] {
+			fr.assume(fr.cx.notFuture(v))
+		}
 		out = append(out, Val{t: v, typ: t})
 	}
 	return out
@@ -76,6 +81,17 @@ func (fr *Frame) callFunc(fn *ssa.Function, bindings []Val, args []Val, p token.
 	eng := fr.eng()
 	// synthetic wrappers ($bound, $thunk): unwrap to the method
 	if fn.Synthetic != "" && strings.HasPrefix(fn.Synthetic, "bound method wrapper") {
+		if obj, ok := fn.Object().(*types.Func); ok && len(bindings) == 1 {
+			if recv := obj.Type().(*types.Signature).Recv(); recv != nil {
+				if _, isIface := recv.Type().Underlying().(*types.Interface); isIface {
+					rv := bindings[0]
+					if rv.typ == nil {
+						rv.typ = recv.Type()
+					}
+					return fr.invoke(rv, obj, args, p)
+				}
+			}
+		}
 		if m := eng.methodOfWrapper(fn); m != nil {
 			return fr.callFunc(m, nil, append(append([]Val{}, bindings...), args...), p)
 		}
@@ -202,7 +218,23 @@ func (fr *Frame) callContract(bc *BoundContract, args []Val, p token.Pos) []Val 
 		}
 	}
 	// results
-	res := fr.freshResults(bc.Sig.Results())
+	freshIdx := map[int]bool{}
+	if len(c.Fresh) > 0 {
+		probe := map[string]Val{}
+		var dummy []Val
+		for i := 0; i < bc.Sig.Results().Len(); i++ {
+			dummy = append(dummy, Val{t: b.Int(int64(i))})
+		}
+		bc.bindResults(probe, dummy)
+		for _, fname := range c.Fresh {
+			if pv, ok := probe[fname]; ok {
+				var k int
+				fmt.Sscan(pv.t.op, &k)
+				freshIdx[k] = true
+			}
+		}
+	}
+	res := fr.freshResultsSkip(bc.Sig.Results(), freshIdx)
 	rvars := map[string]Val{}
 	for k, v := range vars {
 		rvars[k] = v
@@ -212,7 +244,7 @@ func (fr *Frame) callContract(bc *BoundContract, args []Val, p token.Pos) []Val 
 		for i := range res {
 			if rv, ok := rvars[fname]; ok && rv.t == res[i].t && res[i].t.sort == SLoc {
 				fr.cx.newN++
-				res[i].t = b.NewObj(fr.cx.newN)
+				fr.assume(b.Or(b.IsNil(res[i].t), b.Eq(res[i].t, b.NewObj(fr.cx.newN))))
 			}
 		}
 	}
